@@ -73,6 +73,14 @@ func TestVerifBounded_C05_Replicas(t *testing.T) {
 		reps := []*Desc{NewDesc(), NewDesc(), NewDesc()}
 		clock := int64(100)
 		var trace []string
+		// states handed out earlier (Clone shares the token storage with the replica, as the KV store's Get / WatchKey
+		// do): whoever holds one keeps seeing exactly what it was handed
+		type heldState struct {
+			d    *Desc
+			sig  string
+			when string
+		}
+		var held []heldState
 		for step := 0; step < 14; step++ {
 			cases++
 			i := rnd.Intn(3)
@@ -110,8 +118,18 @@ func TestVerifBounded_C05_Replicas(t *testing.T) {
 					t.Fatal(err)
 				}
 			}
+			for _, h := range held {
+				if now := verifC05Sig(h.d, true); now != h.sig {
+					report("c05-held-state-changed", fmt.Sprintf("run %d step %d: a state handed out at %s read %s then and reads %s now; trace %v", run, step, h.when, h.sig, now, trace))
+					break
+				}
+			}
 			for ri, r := range reps {
 				where := fmt.Sprintf("run %d step %d replica %d trace %v", run, step, ri, trace)
+				if len(held) < 12 {
+					c := r.Clone().(*Desc)
+					held = append(held, heldState{c, verifC05Sig(c, true), fmt.Sprintf("step %d from replica %d", step, ri)})
+				}
 				verifC05Check(r, where, report)
 				// lookups over the state never panic and never report inconsistent tokens
 				func() {
@@ -161,7 +179,7 @@ func TestVerifBounded_C05_Replicas(t *testing.T) {
 			}
 		}
 	}
-	fmt.Printf("BOUNDED-CASES name=C05_Replicas n=%d distinct=%d bound=%d runs x 14 steps, 3 replicas/instances claiming tokens from %v (collisions likely), local writes through Merge(localCAS) and full-state gossip, seed %d; invariants after every step on every replica\n", cases, cases, runs, alpha, seed)
+	fmt.Printf("BOUNDED-CASES name=C05_Replicas n=%d distinct=%d bound=%d runs x 14 steps, 3 replicas/instances claiming tokens from %v (collisions likely), local writes through Merge(localCAS) and full-state gossip, seed %d; invariants after every step on every replica; up to 12 earlier handed-out states (clones sharing token storage) re-read after every step\n", cases, cases, runs, alpha, seed)
 	if fails > 0 {
 		t.Fatalf("%d mismatches", fails)
 	}
